@@ -298,6 +298,13 @@ def run_impl(case):
         solv = ms.generate_solvers(txt, variables=A.mystic_variables(case["scheme"]), nvars=case["nvars"],
                                    locals=locs if (locs or case["tl"] is not None) else None)
         con = ms.generate_constraint(solv)
+        # an unrelated compilation with other tolerances / extra names between compiling and using the function must not
+        # influence it (each generated function keeps its own settings)
+        try:
+            ms.generate_constraint(ms.generate_solvers("x0 > x1 + zz", nvars=2, locals=dict(tol=0.125, rel=0.5, zz=3.0)))
+            ms.generate_solvers("x0 != 2.0", nvars=1, locals=dict(tol=0.0, rel=0.0))
+        except Exception:
+            pass
         x = list(case["x"])
         y = con(x)
         return {"y": _floats(y), "text": txt, "nsolvers": len(solv)}
